@@ -200,14 +200,12 @@ Definition or_step (m : mode) (v : val) : out (option val) :=
   | Ref => Ok (if is_nil (primary v) then None else Some (primary v))
   | Chk => if is_values v then Er EDev else Ok (if is_nil v then None else Some v)
   end.
-(* progn (its arguments go through Function.Eval) returns vs[0] of its last form, setq returns the object it
-   evaluated, mapcar stores what the call returned, a cond clause without forms returns its test object:
-   [last_red true] = the language passes all values on, Go only the first; [last_red false] = the language
-   takes the primary value, Go keeps the Values object *)
-Definition last_red (all : bool) (m : mode) (v : val) : out val :=
+(* setq returns the object it evaluated, mapcar stores what the call returned, a cond clause without forms returns
+   its test object: the language takes the primary value, Go keeps the Values object *)
+Definition last_red (m : mode) (v : val) : out val :=
   match m with
-  | Slip => if all then arg_red Slip v else Ok v
-  | Ref => if all then Ok v else Ok (primary v)
+  | Slip => Ok v
+  | Ref => Ok (primary v)
   | Chk => if is_values v then Er EDev else Ok v
   end.
 (* Lambda.Call with fewer arguments than parameters binds what it has (the rest stays unbound) *)
@@ -354,13 +352,6 @@ Fixpoint ev_inits (st : state) (sc : scope) (es : list expr) : res (list val) :=
 Definition ev_test (st : state) (sc : scope) (c : expr) : res bool :=
   bind (ev st sc c) (fun v st1 => (truthy m v, st1)).
 
-(* progn: Function.Eval evaluates every argument (reduced); Progn.Call returns the last *)
-Fixpoint ev_progn (st : state) (sc : scope) (es : list expr) : result :=
-  match es with
-  | [] => (Ok VNil, st)
-  | [e] => bind (ev st sc e) (fun v st1 => (last_red true m v, st1))
-  | e :: es' => bind (ev st sc e) (fun v st1 => bindo (arg_red m v) st1 (fun _ => ev_progn st1 sc es'))
-  end.
 Fixpoint ev_cond (st : state) (sc : scope) (cls : list (expr * list expr)) : result :=
   match cls with
   | [] => (Ok VNil, st)
@@ -368,7 +359,7 @@ Fixpoint ev_cond (st : state) (sc : scope) (cls : list (expr * list expr)) : res
       bind (ev st sc c) (fun v st1 =>
       bindo (truthy m v) st1 (fun b =>
       if b then match body with
-                | [] => (last_red false m v, st1)
+                | [] => (last_red m v, st1)
                 | _ => ev_seq st1 sc body VNil
                 end
       else ev_cond st1 sc cls'))
@@ -415,7 +406,7 @@ Fixpoint ev_setq (st : state) (sc : scope) (ps : list (string * expr)) (last : v
       bind (ev st sc e) (fun v st1 =>
       bindo (arg_red m v) st1 (fun a =>              (* Scope.Set stores vs.First() *)
       bind (assign st1 sc x a) (fun _ st2 =>
-      bindo (last_red false m v) st2 (fun r => ev_setq st2 sc ps' r))))
+      bindo (last_red m v) st2 (fun r => ev_setq st2 sc ps' r))))
   end.
 
 (* Lambda.Call + BoundCall; Caller.Call of a built-in *)
@@ -434,7 +425,7 @@ Fixpoint ev_map (st : state) (c : callable) (rows : list (list val)) : res (list
   | [] => (Ok [], st)
   | row :: rows' =>
       bind (apply_fn st c row) (fun v st1 =>
-      bindo (last_red false m v) st1 (fun a =>
+      bindo (last_red m v) st1 (fun a =>
       bind (ev_map st1 c rows') (fun vs st2 => (Ok (a :: vs), st2))))
   end.
 (* dolist / dotimes: the variable lives in cell 0 of frame f *)
@@ -483,7 +474,7 @@ Definition evalF (st : state) (sc : scope) (e : expr) : result :=
       | None => (Er EUnbound, st)
       end)
   | EFun f => bindo (resolve_name st f) st (fun _ => (Ok (VFn f), st))
-  | EProgn es => ev_progn st sc es
+  | EProgn es => ev_seq st sc es VNil        (* Progn.Call (after the repair): the forms in sequence, every value of the last *)
   | EProg1 e es =>
       bind (ev_args st sc (e :: es)) (fun vs st1 => (Ok (hd VNil vs), st1))
   | EIf c a b =>
@@ -552,7 +543,7 @@ Definition evalF (st : state) (sc : scope) (e : expr) : result :=
   | EDolist x l r es =>
       let '(f, st1) := alloc st [] in
       bind (ev st1 ((f, 0) :: sc) l) (fun v st2 =>
-      bindo (if is_values v then last_red false m v else Ok v) st2 (fun v' =>
+      bindo (if is_values v then last_red m v else Ok v) st2 (fun v' =>
       match list_of v' with
       | None => (Er EType, st2)
       | Some vs =>
@@ -562,7 +553,7 @@ Definition evalF (st : state) (sc : scope) (e : expr) : result :=
   | EDotimes x n r es =>
       let '(f, st1) := alloc st [] in
       bind (ev st1 ((f, 0) :: sc) n) (fun v st2 =>
-      bindo (if is_values v then last_red false m v else Ok v) st2 (fun v' =>
+      bindo (if is_values v then last_red m v else Ok v) st2 (fun v' =>
       match v' with
       | VInt k =>
           let sc1 := (f, 1) :: sc in
